@@ -178,8 +178,9 @@ def expand_with_faults(model, root, snap, info, event, fault_budget):
             viol, info2 = model.judge(root, snap, info, event, crash, obs, log)
         else:
             viol, info2 = model.judge(root, snap, info, event, crash, obs, log, fault=fault)
-        first = c2 not in seen_local
-        seen_local.add(c2)
+        lk = c2 + getattr(model, "info_key", lambda i: "")(info2)
+        first = lk not in seen_local
+        seen_local.add(lk)
         out.append(dict(event=event, crash=crash, fault=fault, obs=obs, canon=c2, snap=snap2 if first else None, info=info2, violations=viol, points=K))
 
     record(None, obs, w.log)
